@@ -44,7 +44,7 @@ from .validation import ValidationContext, DecodeContext, EncodeContext, Validat
 from .helpers import parse_xsd_derivation, parse_xpath_default_namespace
 from .xsdbase import XSD_TYPE_DERIVATIONS, XSD_ELEMENT_DERIVATIONS, XsdComponent
 from .particles import ParticleMixin, OccursCalculator
-from .identities import XsdIdentity, XsdKeyref, KeyrefCounter, FieldValueSelector
+from .identities import XsdIdentity, XsdKeyref, XsdUnique, KeyrefCounter, FieldValueSelector
 from .simple_types import XsdSimpleType
 from .attributes import XsdAttribute
 from .wildcards import XsdAnyElement
@@ -920,6 +920,9 @@ class XsdElement(XsdComponent, ParticleMixin,
             else:
                 if isinstance(identity, XsdKeyref) and any(x is None for x in fields):
                     continue  # not in the qualified node set of the keyref
+                elif isinstance(identity, XsdUnique) and any(x is None for x in fields) \
+                        and any(x is not None for x in fields):
+                    continue  # not in the qualified node set of the unique
                 elif any(x is not None for x in fields) or nilled:
                     try:
                         counter.increase(fields)
